@@ -12,6 +12,7 @@ import Driver.Simd
 import Driver.Matmul
 import Driver.ExprDrv
 import Driver.Minimizer
+import Driver.Assign
 /-! `adept_model <family>`: line protocol on stdin/stdout, one result line per input line.
     Every import of this file must stay free of Mathlib (the driver is linked natively). -/
 open Adept Adept.Drv
@@ -31,4 +32,5 @@ def main (args : List String) : IO UInt32 := do
   | ["matmul"] => runFamily MatmulDrv.step {}; return 0
   | ["expr"] => runFamily ExprDrv.step {}; return 0
   | ["minimizer"] => runFamily MinimizerDrv.step (); return 0
+  | ["assign"] => runFamily AssignDrv.step {}; return 0
   | _ => IO.eprintln "usage: adept_model <family>"; return 2
